@@ -525,7 +525,7 @@ class EFn(C.Fn):
             fail("reference to %s `%s` is outside the subset" % (rd.get("kind"), rd.get("name")))
         if b == "uninit":
             fail("`%s` is read before it is assigned" % rd.get("name"))
-        if b in ("drop", "frontref", "taskref", "queue", "caught", "driverptr") or isinstance(b, tuple):
+        if b in ("drop", "frontref", "taskref", "queue", "caught", "driverptr", "frontelem") or isinstance(b, tuple):
             fail("`%s` (a handle that is not modelled) is used as a value" % rd.get("name"))
         return b
 
@@ -812,6 +812,27 @@ class EFn(C.Fn):
         s, rest = ss[0], ss[1:]
         k = s["kind"]
         nxt = lambda: self.st(rest, ctx, ind)
+        if k == "CompoundStmt" and self.spec_e.world == "QueueWorld" and any(
+                c["kind"] == "DeclStmt" and kids(c) and "lock_guard" in ((kids(c)[0].get("type") or {}).get("qualType") or "")
+                for c in kids(s)):
+            # a block with its own lock guard: the lock is released where the block ends (and at a `return` inside)
+            saved_locked = self.locked
+            self.locked = False
+
+            def end_block(ind2):
+                held = self.locked
+                self.locked = saved_locked
+                try:
+                    tail = self.st(rest, ctx, ind2)
+                finally:
+                    self.locked = held
+                return ("%sM.bind (W.unlock) fun _ =>\n" % ("  " * ind2) if held else "") + tail
+            inner = dict(ctx)
+            inner["end"] = end_block
+            try:
+                return self.st(kids(s), inner, ind)
+            finally:
+                self.locked = saved_locked
         if k == "CompoundStmt":
             return self.st(kids(s) + rest, ctx, ind)
         if k == "NullStmt" or C._is_assert(s):
@@ -980,6 +1001,20 @@ class EFn(C.Fn):
             if txt == "get(sendQ)" and "&" in ty:
                 self.env[did] = "queue"
                 return nxt()
+            # the front element and its fields named one by one instead of by a structured binding:
+            # `Elem &front = q.front(); T &x = std::get<N>(front);`
+            if "&" in ty and txt == "q.front()" and all(
+                    self.env.get(x.get("referencedDecl", {}).get("id")) == "queue" for x in walk(inits[-1])
+                    if x.get("kind") == "DeclRefExpr" and x.get("referencedDecl", {}).get("name") == "q"):
+                self.env[did] = "frontelem"
+                return nxt()
+            if "&" in ty and re.match(r"^get\(\w+\)$", txt):
+                refs = [x.get("referencedDecl", {}).get("id") for x in walk(inits[-1]) if x.get("kind") == "DeclRefExpr"
+                        and x.get("referencedDecl", {}).get("kind") == "VarDecl"]
+                m = re.search(r"std::get<(\d+)>\(", re.sub(r"\s+", "", self.source_text(inits[-1]) or ""))
+                if len(refs) == 1 and self.env.get(refs[0]) == "frontelem" and m:
+                    self.env[did] = ("binding", int(m.group(1)))
+                    return nxt()
         if self.spec_e.world == "TodoWorld" and inits:
             txt = C.canon(inits[-1])
             if txt == "todos.front()" and "&" in ((d.get("type") or {}).get("qualType") or ""):
